@@ -55,25 +55,108 @@ def _module_dict(tree, name):
     _err("module constant %s not found" % name)
 
 
-def _in_lists(fn):
-    """the literal lists/tuples/sets used on the right of `in` / `not in` inside a function, in source order"""
+_COLL_CALLS = ("set", "frozenset", "tuple", "list", "sorted")
+
+
+def _strs(v):
+    """a literal collection of strings as a list (source order; a set sorted), else None"""
+    if isinstance(v, (list, tuple)) and v and all(isinstance(x, str) for x in v):
+        return list(v)
+    if isinstance(v, (set, frozenset)) and v and all(isinstance(x, str) for x in v):
+        return sorted(v)
+    return None
+
+
+def _coll(node, env=None):
+    """the constant collection of strings an expression denotes: a list / tuple / set literal, `set((..))`,
+    `frozenset([..])`…, or a name bound to one of those (in the function, its class or its module)"""
+    v = _strs(_lit(node))
+    if v is not None:
+        return v
+    if isinstance(node, ast.Call) and getattr(node.func, "id", None) in _COLL_CALLS and len(node.args) == 1 and not node.keywords:
+        return _coll(node.args[0], env)
+    if env is not None:
+        if isinstance(node, ast.Name) and node.id in env:
+            return env[node.id]
+        if isinstance(node, ast.Attribute) and node.attr in env:          # self.NAME / Class.NAME
+            return env[node.attr]
+    return None
+
+
+def _env(fn, trees=()):
+    """name -> constant collection of strings, from the assignments of the function and the module / class level of
+    the given trees (a literal membership list that a refactoring moved into a named constant)"""
+    env = {}
+    scopes = []
+    for t in trees:
+        scopes.append(t.body)
+        scopes.extend(n.body for n in t.body if isinstance(n, ast.ClassDef))
+    nodes = [n for body in scopes for n in body] + list(ast.walk(fn))
+    for _ in range(2):      # a name bound to another name
+        for node in nodes:
+            tgt = val = None
+            if isinstance(node, ast.Assign) and len(node.targets) == 1:
+                tgt, val = node.targets[0], node.value
+            elif isinstance(node, ast.AnnAssign) and node.value is not None:
+                tgt, val = node.target, node.value
+            if isinstance(tgt, ast.Name):
+                v = _coll(val, env)
+                if v is not None:
+                    env[tgt.id] = v
+    return env
+
+
+def _in_lists(fn, trees=()):
+    """the constant collections of strings a function tests membership in, in source order: the right-hand side of
+    `in` / `not in` (a literal list / tuple / set, or a name bound to one), chains `x == "a" or x == "b"` /
+    `x != "a" and x != "b"`; after them every other literal collection of strings of the function"""
+    env = _env(fn, trees)
     res = []
+    seen = set()
     for node in ast.walk(fn):
         if isinstance(node, ast.Compare) and len(node.ops) == 1 and isinstance(node.ops[0], (ast.In, ast.NotIn)):
-            v = _lit(node.comparators[0])
-            if isinstance(v, (list, tuple, set)) and all(isinstance(x, str) for x in v):
-                res.append((node.lineno, node.col_offset, list(v) if not isinstance(v, set) else sorted(v)))
-    res.sort()
-    return [r[2] for r in res]
-
-
-def _assigned_list(fn, name):
+            v = _coll(node.comparators[0], env)
+            if v is not None:
+                res.append((0, node.lineno, node.col_offset, v))
+                seen.add(id(node.comparators[0]))
+        if isinstance(node, ast.BoolOp):
+            want = ast.Eq if isinstance(node.op, ast.Or) else ast.NotEq
+            groups = {}
+            for c in node.values:
+                if isinstance(c, ast.Compare) and len(c.ops) == 1 and isinstance(c.ops[0], want):
+                    a, b = c.left, c.comparators[0]
+                    if isinstance(a, ast.Constant) and isinstance(a.value, str):
+                        a, b = b, a
+                    if isinstance(b, ast.Constant) and isinstance(b.value, str):
+                        groups.setdefault(ast.dump(a), []).append(b.value)
+            for vals in groups.values():
+                if len(vals) >= 2:
+                    res.append((0, node.lineno, node.col_offset, vals))
     for node in ast.walk(fn):
-        if isinstance(node, ast.Assign) and len(node.targets) == 1 and getattr(node.targets[0], "id", None) == name:
-            v = _lit(node.value)
-            if isinstance(v, list):
-                return v
+        if isinstance(node, (ast.List, ast.Tuple, ast.Set)) and id(node) not in seen:
+            v = _strs(_lit(node))
+            if v is not None:
+                res.append((1, node.lineno, node.col_offset, v))
+    res.sort(key=lambda r: r[:3])
+    return [r[3] for r in res]
+
+
+def _assigned_list(fn, name, pred=None, trees=()):
+    """the constant collection bound to `name` in the function (list / tuple / set literal, set(..)…); when the name is
+    gone (inlined or renamed), the collection of the function that satisfies `pred`"""
+    env = _env(fn, trees)
+    if name in env:
+        return env[name]
+    if pred is not None:
+        for l in _in_lists(fn, trees):
+            if pred(l):
+                return l
     _err("%s: list %s not found" % (fn.name, name))
+
+
+def _member(xs):
+    """a collection only ever used for membership: order and repetitions are not part of the behaviour"""
+    return sorted(set(xs))
 
 
 def _find(lists, pred, what):
@@ -149,9 +232,9 @@ def extract():
         if not all(isinstance(v, int) for v in res[name].values()):
             _err(name + ": ranks are not integers")
     dpp = _func(nt, "NonTerminalFr", "doPronounPlacement")
-    ls = _in_lists(dpp)
-    res["clitic_cases"] = _find(ls, lambda l: "acc" in l, "doPronounPlacement: clitic case list")
-    res["relative_stop"] = _find(ls, lambda l: "dont" in l, "doPronounPlacement: relative pronoun list")
+    ls = _in_lists(dpp, (nt,))
+    res["clitic_cases"] = _member(_find(ls, lambda l: "acc" in l and "dat" in l, "doPronounPlacement: clitic case list"))
+    res["relative_stop"] = _member(_find(ls, lambda l: "dont" in l, "doPronounPlacement: relative pronoun list"))
     # the sort key of the clitics: does it look the realization (a string) up, or the Terminal itself?
     key_on_string = None
     neg_as_pas = False
@@ -206,25 +289,36 @@ def extract():
     # Terminal.isReflexive: is a verb without `pat` guarded (`pat is None or "réfl" not in pat`) or does `"réfl" not in None` raise?
     isr = _func(_src("Terminal.py"), "Terminal", "isReflexive")
     guarded = None
+    # any membership test of "réfl" in `pat` … guarded as soon as the function also tests `pat` for None / emptiness
+    # (`pat is None or …`, `pat is not None and …`, `if not pat: return …`, `pat and …`, `(pat or [])`)
+    has_member = has_guard = False
     for node in ast.walk(isr):
-        if isinstance(node, ast.Compare) and len(node.ops) == 1 and isinstance(node.ops[0], ast.NotIn) \
-                and isinstance(node.comparators[0], ast.Name) and node.comparators[0].id == "pat":
-            guarded = False
-    for node in ast.walk(isr):
-        if isinstance(node, ast.BoolOp) and isinstance(node.op, ast.Or):
-            has_none = any(isinstance(v, ast.Compare) and isinstance(v.left, ast.Name) and v.left.id == "pat"
-                           and isinstance(v.ops[0], ast.Is) and _lit(v.comparators[0]) is None
-                           and isinstance(v.comparators[0], ast.Constant) for v in node.values)
-            has_notin = any(isinstance(v, ast.Compare) and isinstance(v.ops[0], ast.NotIn) for v in node.values)
-            if has_none and has_notin:
-                guarded = True
+        if isinstance(node, ast.Compare) and len(node.ops) == 1 and isinstance(node.ops[0], (ast.NotIn, ast.In)) \
+                and _lit(node.left) == "réfl":
+            has_member = True
+            c = node.comparators[0]
+            if isinstance(c, ast.BoolOp) and isinstance(c.op, ast.Or):        # "réfl" in (pat or [])
+                has_guard = True
+        if isinstance(node, ast.Compare) and len(node.ops) == 1 and isinstance(node.ops[0], (ast.Is, ast.IsNot)) \
+                and isinstance(node.left, ast.Name) and node.left.id == "pat" and _lit(node.comparators[0]) is None \
+                and isinstance(node.comparators[0], ast.Constant):
+            has_guard = True
+        if isinstance(node, ast.UnaryOp) and isinstance(node.op, ast.Not) and isinstance(node.operand, ast.Name) \
+                and node.operand.id == "pat":
+            has_guard = True
+        if isinstance(node, (ast.BoolOp,)) and any(isinstance(v, ast.Name) and v.id == "pat" for v in node.values):
+            has_guard = True
+        if isinstance(node, (ast.If, ast.IfExp)) and isinstance(node.test, ast.Name) and node.test.id == "pat":
+            has_guard = True
+    if has_member:
+        guarded = has_guard
     if guarded is None:
         _err("Terminal.isReflexive: the test `\"réfl\" not in pat` was not found")
     res["refl_guards_no_pat"] = guarded
     # TerminalFr.conjugate
     tf = _src("TerminalFr.py")
     cj = _func(tf, "TerminalFr", "conjugate")
-    res["compound_list"] = _find(_in_lists(cj), lambda l: "pc" in l and "bp" in l, "conjugate: compound tense list")
+    res["compound_list"] = _member(_find(_in_lists(cj, (tf,)), lambda l: "pc" in l and "bp" in l, "conjugate: compound tense list"))
     ta = None
     for node in ast.walk(cj):
         if isinstance(node, ast.Dict):
@@ -238,13 +332,14 @@ def extract():
     pf = _src("PhraseFr.py")
     df = _src("DependentFr.py")
     mo = _func(pf, "PhraseFr", "move_object")
-    res["proLikeNoun"] = _assigned_list(mo, "proLikeNoun")
-    res["academie"] = _find(_in_lists(mo), lambda l: "pouvoir" in l and "dire" in l, "move_object: Académie list")
+    is_pln = lambda l: "aucun" in l and "tout" in l
+    res["proLikeNoun"] = _member(_assigned_list(mo, "proLikeNoun", is_pln, (pf,)))
+    res["academie"] = _member(_find(_in_lists(mo, (pf,)), lambda l: "pouvoir" in l and "dire" in l, "move_object: Académie list"))
     mod = _func(df, "DependentFr", "move_object")
-    res["proLikeNoun_dep"] = _assigned_list(mod, "proLikeNoun")
-    res["academie_dep"] = _find(_in_lists(mod), lambda l: "pouvoir" in l and "dire" in l, "DependentFr.move_object: Académie list")
-    res["y_preps"] = _find(_in_lists(_func(pf, "PhraseFr", "pronominalize")), lambda l: "sur" in l, "pronominalize: y prepositions")
-    res["y_preps_dep"] = _find(_in_lists(_func(df, "DependentFr", "pronominalize")), lambda l: "sur" in l, "DependentFr.pronominalize: y prepositions")
+    res["proLikeNoun_dep"] = _member(_assigned_list(mod, "proLikeNoun", is_pln, (df,)))
+    res["academie_dep"] = _member(_find(_in_lists(mod, (df,)), lambda l: "pouvoir" in l and "dire" in l, "DependentFr.move_object: Académie list"))
+    res["y_preps"] = _member(_find(_in_lists(_func(pf, "PhraseFr", "pronominalize"), (pf,)), lambda l: "sur" in l, "pronominalize: y prepositions"))
+    res["y_preps_dep"] = _member(_find(_in_lists(_func(df, "DependentFr", "pronominalize"), (df,)), lambda l: "sur" in l, "DependentFr.pronominalize: y prepositions"))
     pl = None
     for tree, cls in ((nt, "NonTerminalFr"), (pf, "PhraseFr")):
         for node in ast.walk(tree):
@@ -255,38 +350,46 @@ def extract():
     if pl is None:
         _err("preposition_list not found in NonTerminalFr / PhraseFr")
     preps = None
+    penv = _env(pl, (nt, pf))
     for node in ast.walk(pl):
-        if isinstance(node, ast.Call) and getattr(node.func, "id", None) == "dict":
-            kw = {k.arg: _lit(k.value) for k in node.keywords}
-            if all(isinstance(v, set) for v in kw.values()) and {"all", "whe", "whn"} <= set(kw):
-                preps = {k: sorted(v) for k, v in kw.items()}
+        kw = None
+        if isinstance(node, ast.Call) and getattr(node.func, "id", None) == "dict" and not node.args:
+            kw = {k.arg: _coll(k.value, penv) for k in node.keywords}
+        elif isinstance(node, ast.Dict) and all(isinstance(k, ast.Constant) for k in node.keys):
+            kw = {k.value: _coll(v, penv) for k, v in zip(node.keys, node.values)}
+        if kw and {"all", "whe", "whn"} <= set(kw) and all(v is not None for v in kw.values()):
+            preps = {k: _member(v) for k, v in kw.items()}
     if preps is None:
-        _err("PhraseFr.preposition_list: dict(all=..,whe=..,whn=..) not found")
+        _err("preposition_list: the dictionary all= / whe= / whn= of preposition sets was not found")
     res["preps"] = preps
     res["dep_has_preposition_list"] = any(
         isinstance(n, ast.FunctionDef) and n.name == "preposition_list"
         for t in (df, nt, _src("Dependent.py"), _src("ConstituentFr.py"), _src("Constituent.py")) for n in ast.walk(t))
     cf = _src("ConstituentFr.py")
+    tff = _func(cf, "ConstituentFr", "tonic_forms")
     tfm = None
-    for node in ast.walk(_func(cf, "ConstituentFr", "tonic_forms")):
-        v = _lit(node) if isinstance(node, ast.Set) else None
-        if isinstance(v, set):
-            tfm = sorted(v)
+    for l in _in_lists(tff, (cf,)) + list(_env(tff, (cf,)).values()):
+        if "toi" in l and "lui" in l:
+            tfm = _member(l)
+            break
     if tfm is None:
         _err("ConstituentFr.tonic_forms not found")
     res["tonic_forms"] = tfm
     ct = _func(cf, "ConstituentFr", "check_for_t")
-    res["t_pronouns"] = _find(_in_lists(ct), lambda l: "il" in l, "check_for_t: pronoun list")
+    res["t_pronouns"] = _member(_find(_in_lists(ct, (cf,)), lambda l: "il" in l and "elle" in l, "check_for_t: pronoun list"))
     pats = [n.value for n in ast.walk(ct) if isinstance(n, ast.Constant) and isinstance(n.value, str) and n.value.endswith("$")]
     m = [re.fullmatch(r"\[\^(\w+)\]\$", p) for p in pats]
     m = [x for x in m if x]
     if not m:
         _err("check_for_t: the `[^dt]$` test was not found")
     res["t_not_after"] = sorted(m[0].group(1))
-    pi = _func(_src("Phrase.py"), "Phrase", "processInt")
-    ls = _in_lists(pi)
-    res["int_groups"] = [_find(ls, lambda l: "yon" in l, "processInt yon group"), _find(ls, lambda l: "wos" in l and len(l) == 2, "processInt wos group"),
-                         _find(ls, lambda l: "wod" in l and len(l) == 2, "processInt wod group"), _find(ls, lambda l: "woi" in l, "processInt woi group")]
+    ph = _src("Phrase.py")
+    pi = _func(ph, "Phrase", "processInt")
+    ls = _in_lists(pi, (ph,))
+    res["int_groups"] = [_member(_find(ls, lambda l: "yon" in l and "why" in l, "processInt yon group")),
+                         _member(_find(ls, lambda l: set(l) == {"wos", "was"}, "processInt wos group")),
+                         _member(_find(ls, lambda l: set(l) == {"wod", "wad"}, "processInt wod group")),
+                         _member(_find(ls, lambda l: "woi" in l and "whe" in l, "processInt woi group"))]
     # lexical entries the transformations create
     aux_verbs = sorted(set(["avoir", "être"] + [v for _, v in res["modality"]]))
     res["aux_verbs"] = {}
